@@ -78,7 +78,7 @@ func (e *Engine) VerifyFunction(key string, opts VerifyOpts) (*FuncResult, error
 	for i, fv := range fn.FreeVars {
 		pt := fv.Type().Underlying().(*types.Pointer).Elem()
 		if freeVars[i].K == VAddr {
-			vc.closureVars[fv.Name()] = EV{V: vc.loadMem(st, freeVars[i].A.Ref, pt), T: pt}
+			vc.closureVars[fv.Name()] = EV{V: vc.loadMem(st, freeVars[i].A.Ref, pt), T: pt, cell: freeVars[i].A.Ref}
 		} else {
 			vc.closureVars[fv.Name()] = EV{V: freeVars[i], T: pt}
 		}
